@@ -87,19 +87,6 @@ Proof.
   apply urun_ascii. rewrite forallb_rev. exact H2.
 Qed.
 
-Lemma drop_isspace_ascii p : forallb is_ascii p = true -> forallb is_ascii (drop_isspace p) = true.
-Proof.
-  induction p as [|c r IH]; intro H; [reflexivity|]. cbn [drop_isspace].
-  destruct (isspace c); [|exact H]. cbn [forallb] in H. apply andb_true_iff in H. apply IH. apply H.
-Qed.
-
-Lemma inv0_extend_prefix_rtrim s : Inv0 s U0 -> Inv0 (extend_prefix_rtrim s) U0.
-Proof.
-  intros [H1 H2]. split; [|exact H2]. unfold fwd, extend_prefix_rtrim. cbn [rv set_v].
-  rewrite rev_app_distr. rewrite urun_app. unfold fwd in H1. rewrite H1.
-  apply urun_ascii. rewrite forallb_rev. apply drop_isspace_ascii. exact H2.
-Qed.
-
 (* setters that touch neither v nor the prefix *)
 Ltac frame := unfold Inv0, fwd; cbn [rv rprefix set_column set_need_cr set_last_breakable set_begin_line set_begin_content
                                      set_no_linebreaks set_in_tight set_custom_escape set_footnote_ix set_ol_stack set_cur].
@@ -119,11 +106,8 @@ Proof.
   - destruct (beqb c x0a).
     + apply IH. apply inv0_set_need_cr, inv0_set_begin_content, inv0_set_begin_line, inv0_set_last_breakable, inv0_set_column. exact H.
     + apply IH. apply inv0_set_need_cr, inv0_set_begin_content, inv0_set_begin_line, inv0_set_last_breakable, inv0_set_column.
-      assert (Inv0 (match rv s with l :: _ => if beqb l x0a then extend_prefix_rtrim s else s | [] => s end) U0) as H'.
-      { destruct (rv s) as [|l v']; [exact H|]. destruct (beqb l x0a); [apply inv0_extend_prefix_rtrim|]; exact H. }
-      destruct (N.ltb 1 (need_cr s)).
-      * apply inv0_extend_prefix. apply inv0_push_ascii; [exact H' | reflexivity].
-      * apply inv0_push_ascii; [exact H' | reflexivity].
+      apply inv0_push_ascii; [|reflexivity].
+      destruct (rv s) as [|l v']; [exact H|]. destruct (beqb l x0a); [apply inv0_extend_prefix|]; exact H.
 Qed.
 
 (* ---- one step ---- *)
